@@ -281,3 +281,100 @@ func verifAbstractFloat() float64 { verifAbstractUsed = true; return math.NaN() 
 func verifGrammarAccepts(types []tokType) bool { return verifGrammarAcceptsNative(types) }
 
 func verifFinite(x float64) bool { return !math.IsNaN(x) && !math.IsInf(x, 0) }
+
+// verifFingerprint: a deep rendering of a value including unexported fields
+// (pointers followed, cycles cut), used natively to observe writes to a
+// compiled expression and its interpreter during Search.
+func verifFingerprint(v interface{}) string {
+	var sb strings.Builder
+	seen := map[uintptr]bool{}
+	var walk func(rv reflect.Value, depth int)
+	walk = func(rv reflect.Value, depth int) {
+		if depth > 12 {
+			sb.WriteString("...")
+			return
+		}
+		switch rv.Kind() {
+		case reflect.Invalid:
+			sb.WriteString("nil")
+		case reflect.Ptr:
+			if rv.IsNil() {
+				sb.WriteString("nil")
+				return
+			}
+			if seen[rv.Pointer()] {
+				sb.WriteString("^")
+				return
+			}
+			seen[rv.Pointer()] = true
+			sb.WriteString("&")
+			walk(rv.Elem(), depth+1)
+		case reflect.Interface:
+			if rv.IsNil() {
+				sb.WriteString("nil")
+				return
+			}
+			walk(rv.Elem(), depth+1)
+		case reflect.Struct:
+			sb.WriteString("{")
+			for i := 0; i < rv.NumField(); i++ {
+				sb.WriteString(rv.Type().Field(i).Name + ":")
+				walk(rv.Field(i), depth+1)
+				sb.WriteString(" ")
+			}
+			sb.WriteString("}")
+		case reflect.Slice, reflect.Array:
+			if rv.Kind() == reflect.Slice && rv.IsNil() {
+				sb.WriteString("nil[]")
+				return
+			}
+			sb.WriteString("[")
+			n := rv.Len()
+			if rv.Kind() == reflect.Slice {
+				n = rv.Cap()
+				rv = rv.Slice(0, n)
+				sb.WriteString(strconv.Itoa(rv.Len()) + "/" + strconv.Itoa(n) + ":")
+			}
+			for i := 0; i < n; i++ {
+				walk(rv.Index(i), depth+1)
+				sb.WriteString(",")
+			}
+			sb.WriteString("]")
+		case reflect.Map:
+			keys := rv.MapKeys()
+			parts := []string{}
+			for _, k := range keys {
+				var sub strings.Builder
+				old := sb
+				sb = sub
+				walk(k, depth+1)
+				sb.WriteString("=>")
+				walk(rv.MapIndex(k), depth+1)
+				parts = append(parts, sb.String())
+				sb = old
+			}
+			sort.Strings(parts)
+			sb.WriteString("map{" + strings.Join(parts, ";") + "}")
+		case reflect.String:
+			sb.WriteString(strconv.Quote(rv.String()))
+		case reflect.Bool:
+			sb.WriteString(strconv.FormatBool(rv.Bool()))
+		case reflect.Int, reflect.Int8, reflect.Int16, reflect.Int32, reflect.Int64:
+			sb.WriteString(strconv.FormatInt(rv.Int(), 10))
+		case reflect.Uint, reflect.Uint8, reflect.Uint16, reflect.Uint32, reflect.Uint64, reflect.Uintptr:
+			sb.WriteString(strconv.FormatUint(rv.Uint(), 10))
+		case reflect.Float32, reflect.Float64:
+			sb.WriteString(strconv.FormatUint(math.Float64bits(rv.Float()), 16))
+		case reflect.Func:
+			if rv.IsNil() {
+				sb.WriteString("nilfunc")
+			} else {
+				sb.WriteString("func@" + strconv.FormatUint(uint64(rv.Pointer()), 16))
+			}
+		default:
+			sb.WriteString("?" + rv.Kind().String())
+		}
+	}
+	walk(reflect.ValueOf(v), 0)
+	return sb.String()
+}
